@@ -74,6 +74,13 @@ structure LexCfg where
   /-- `ReadEntityRef` reports a character that is neither `#`/`@` nor a delimiter where the reference should be
       (fixes/C09-8); otherwise that is left to `CheckRemainingInput` alone -/
   refReportsNonRef : Bool := false
+  /-- `ReadInteger` reports the token that denotes `S_INT_NULL` = LONG_MAX, the in-band "unset", instead of storing it
+      silently (fixes/C09-9) -/
+  intNullReported : Bool := false
+  /-- `ReadReal` reports a token that converts to `S_REAL_NULL` = (double)FLT_MIN (fixes/C09-9) -/
+  realNullReported : Bool := false
+  /-- `ReadNumber` reports a token that converts to `S_NUMBER_NULL` = (double)FLT_MIN (fixes/C09-9) -/
+  numberNullReported : Bool := false
 deriving Repr, DecidableEq
 
 /-- `c` is one of the characters of the delimiter list -/
@@ -82,10 +89,6 @@ def isDelim (ds : List Byte) (c : Byte) : Bool := ds.contains c
 /-- the delimiter test of `CheckRemainingInput`: `strchr(delimiterList, c) != NULL` — the terminating NUL of the list
     matches byte 0 — or, repaired, `c != '\0' && strchr(delimiterList, c) != NULL` -/
 def delimAt (cfg : LexCfg) (ds : List Byte) (c : Byte) : Bool := (cfg.nulIsDelim && c == 0) || isDelim ds c
-
-/-- a character of the list is a delimiter in every configuration -/
-@[simp] theorem delimAt_of_isDelim (cfg : LexCfg) (ds : List Byte) (c : Byte) (h : isDelim ds c = true) :
-    delimAt cfg ds c = true := by simp [delimAt, h]
 
 /-- the delimiter list `",)"` every `STEPattribute::STEPread` call passes -/
 def attrDelims : List Byte := [44, 41]
@@ -477,6 +480,36 @@ structure ReadResult (F : Type) where
   val : Value F
   s : IStream
 
+/-! ### the in-band null sentinels (`if( !in.fail() && i == S_INT_NULL )` … of the repaired readers, fixes/C09-9)
+
+`readInteger`, `readReal`, `readNumber` above are the readers up to that test; `readIntegerS`, `readRealS`, `readNumberS` add
+it: a successfully extracted value that *is* the sentinel is not stored but reported (SEVERITY_WARNING, raised before
+`CheckRemainingInput`; `GreaterSeverity` is a minimum, so raising it afterwards gives the same severity). -/
+
+/-- the extracted integer is `S_INT_NULL` and the reader reports that -/
+def intSentinel (cfg : LexCfg) (v : Option Int) : Bool := cfg.intNullReported && v == some IStream.longMax
+
+/-- the converted double is `S_REAL_NULL` / `S_NUMBER_NULL` -/
+def realSentinel {F} (ops : FloatOps F) (v : Option F) : Bool :=
+  match v with
+  | some x => ops.isRealNull x
+  | none => false
+
+def readIntegerS (cfg : LexCfg) (delims : Option (List Byte)) (s : IStream) (err : Sev) : Option Int × IStream × Sev :=
+  let (v, s1, e) := readInteger cfg delims s err
+  if intSentinel cfg v then (none, s1, e.greater .warning) else (v, s1, e)
+
+def readRealS {F} (ops : FloatOps F) (cfg : LexCfg) (delims : Option (List Byte)) (s : IStream) (err : Sev) :
+    Outcome (Option F × IStream × Sev) :=
+  match readReal ops cfg delims s err with
+  | .overflow => .overflow
+  | .ok (v, s1, e) => if cfg.realNullReported && realSentinel ops v then .ok (none, s1, e.greater .warning) else .ok (v, s1, e)
+
+def readNumberS {F} (ops : FloatOps F) (cfg : LexCfg) (delims : Option (List Byte)) (s : IStream) (err : Sev) :
+    Option F × IStream × Sev :=
+  let (v, s1, e) := readNumber ops cfg delims s err
+  if cfg.numberNullReported && realSentinel ops v then (none, s1, e.greater .warning) else (v, s1, e)
+
 /-- `is_null()` applied to what the readers stored -/
 def intValue {F} (o : Option Int) : Value F :=
   match o with
@@ -514,15 +547,16 @@ def attrRead {F} (ops : FloatOps F) (cfg : LexCfg) (lookup : Int → RefLookup) 
     let d := some attrDelims
     match k with
     | .integer =>
+      -- `readIntegerS`; the value needs no correction: `intValue` reads the sentinel as unset anyway
       let (v, s3, e) := readInteger cfg d s2 .null
-      .ok ⟨e, intValue v, s3⟩
+      .ok ⟨e.warnIf (intSentinel cfg v), intValue v, s3⟩
     | .real =>
       match readReal ops cfg d s2 .null with
       | .overflow => .overflow
-      | .ok (v, s3, e) => .ok ⟨e, realValue ops v, s3⟩
+      | .ok (v, s3, e) => .ok ⟨e.warnIf (cfg.realNullReported && realSentinel ops v), realValue ops v, s3⟩
     | .number =>
       let (v, s3, e) := readNumber ops cfg d s2 .null
-      .ok ⟨e, realValue ops v, s3⟩
+      .ok ⟨e.warnIf (cfg.numberNullReported && realSentinel ops v), realValue ops v, s3⟩
     | .string =>
       let (t, s3, e) := stringRead s2 .null
       let (s4, e2) := checkRemainingInput cfg d s3 e
